@@ -13,6 +13,7 @@ from typing import (
 )
 
 import numpy as np
+import onnx
 import onnx_ir as ir
 
 import onnxscript
@@ -587,6 +588,14 @@ class Converter:
                 self._fail(expr, f"Attribute '{attr_name}' is required.")
             return None
         attr_type = attr_meta.type if attr_meta else None
+        # The attribute keeps the value it has now: a tensor or array of the enclosing
+        # scope may be modified in place later (as for constants, see _emit_const).
+        if isinstance(val, onnx.TensorProto):
+            copied = onnx.TensorProto()
+            copied.CopyFrom(val)
+            val = copied
+        elif isinstance(val, np.ndarray):
+            val = val.copy()
         if attr_type == ir.AttributeType.TENSOR:
             val = ir.tensor(val)
         attr = ir.convenience.convert_attribute(attr_name, val, attr_type)
